@@ -53,6 +53,17 @@ def generate(rng, tier):
                 texts.append((b"[" * n + b",".join([tok] * j) + b"]", "stack-exhaustion"))
                 texts.append((b'{"a":' * n + tok + b"}" * (j % 3), "stack-exhaustion"))
     cases = []
+    # one document larger than a 64 KiB pool chunk, whole and cut in the middle of a token, with every allocator kind
+    parts, size, i = [], 0, 0
+    while size < 66000:
+        item = rng.choice([b'{"id":%d,"name":"%s","v":[1.5,-2,null,true]}' % (i, b"n" * rng.randrange(0, 90)), b'"%s"' % (b"s" * rng.randrange(0, 300)), b"[[],{},[%d]]" % i])
+        parts.append(item)
+        size += len(item) + 1
+        i += 1
+    bigdoc = b"[" + b",".join(parts) + b"]"
+    for alloc in ["pool", "track", "gpool"] + ([] if quick else ["simple", "guard"]):
+        cut = rng.randrange(len(bigdoc) // 2, len(bigdoc))
+        cases.append({"lines": [f"parse-seq {alloc} {G.hx(bigdoc)} {G.hx(bigdoc[:cut])} {G.hx(b'[1]')}"], "cls": "big-doc/" + alloc, "nontrivial": True})
     for t, cls in texts:
         alloc = rng.choice(["pool", "simple", "track", "track", "guard", "gpool"] if len(t) < 400 else ["pool", "simple", "track"])
         cases.append({"lines": [f"parse {alloc} {G.hx(t)}"], "cls": cls + "/" + alloc, "nontrivial": len(t) > 2})
